@@ -621,3 +621,84 @@ def gen_pyramidio():
 
 
 MODULES["PIO"] = gen_pyramidio
+
+
+# ------------------------------------------------------------------ hand-off stages (C03, C19)
+STAGES = [
+    ("visit", "toasty/pyramid.py", "Pyramid._visit_leaves_parallel", "_mp_visit_worker", "ready_queue"),
+    ("transform", "toasty/transform.py", "_transform_parallel", "_transform_mp_worker", "queue"),
+    ("multi_tan", "toasty/multi_tan.py", "MultiTanProcessor._tile_parallel", "_mp_tile_worker", "queue"),
+    ("multi_wcs", "toasty/multi_wcs.py", "MultiWcsProcessor._tile_parallel", "_mp_tile_worker", "queue"),
+]
+
+
+def _stmt_index(stmts, pred):
+    for i, s in enumerate(stmts):
+        if pred(ast.unparse(s)):
+            return i
+    return None
+
+
+def _worker_shape(fn, qname):
+    """returns 'flag-first' | 'flag-after-empty' for `while True: … get … except Empty …` loops"""
+    loops = [n for n in fn.body if isinstance(n, ast.While) and ast.unparse(n.test) == "True"]
+    if len(loops) != 1:
+        raise ExtractError(f"{fn.name}: expected one `while True` loop")
+    body = loops[0].body
+    tries = [i for i, s in enumerate(body) if isinstance(s, ast.Try)]
+    if len(tries) != 1:
+        raise ExtractError(f"{fn.name}: expected one try block in the loop")
+    ti = tries[0]
+    tr = body[ti]
+    if f"{qname}.get(True, timeout=" not in ast.unparse(ast.Module(body=tr.body, type_ignores=[])):
+        raise ExtractError(f"{fn.name}: the try block does not poll {qname}.get(True, timeout=…)")
+    if len(tr.handlers) != 1 or ast.unparse(tr.handlers[0].type) != "Empty":
+        raise ExtractError(f"{fn.name}: handler is not `except Empty`")
+    hb = [ast.unparse(s) for s in tr.handlers[0].body]
+    pre = [ast.unparse(s) for s in body[:ti]]
+    if pre == ["done = done_event.is_set()"] and hb == ["if done:\n    break", "continue"]:
+        return "flag-first"
+    if pre == [] and hb == ["if done_event.is_set():\n    break", "continue"]:
+        return "flag-after-empty"
+    raise ExtractError(f"{fn.name}: unrecognised shutdown test: before get {pre}, on Empty {hb}")
+
+
+def gen_stage():
+    out = HEADER.format(src=", ".join(s[1] for s in STAGES)) + "namespace Gen\nnamespace Stage\n\n"
+    shapes = {}
+    for short, path, prod, work, qname in STAGES:
+        tree = parse(path)
+        p = find_def(tree, prod)
+        w = find_def(tree, work)
+        stmts = p.body
+        iq = _stmt_index(stmts, lambda t: t.startswith(f"{qname} = mp.Queue("))
+        if iq is None:
+            raise ExtractError(f"{prod}: queue creation not found")
+        cap = ast.unparse(stmts[iq].value)
+        m = re.fullmatch(r"mp\.Queue\(maxsize=(\d+) \* parallel\)", cap)
+        if not m:
+            raise ExtractError(f"{prod}: queue capacity is {cap}")
+        ic = _stmt_index(stmts, lambda t: t == f"{qname}.close()")
+        ij = _stmt_index(stmts, lambda t: t == f"{qname}.join_thread()")
+        is_ = _stmt_index(stmts, lambda t: t == "done_event.set()")
+        iw = _stmt_index(stmts, lambda t: t == "for w in workers:\n    w.join()")
+        iput = None
+        for i, s in enumerate(stmts):
+            if f"{qname}.put(" in ast.unparse(s):
+                iput = i
+        istart = _stmt_index(stmts, lambda t: t.startswith("for _ in range(parallel):") and "w.start()" in t and "workers.append(w)" in t)
+        order_ok = None not in (ic, ij, is_, iw, iput, istart) and istart < iput < ic < ij < is_ < iw and iw == len(stmts) - 1
+        nput = sum(ast.unparse(s).count(f"{qname}.put(") for s in stmts)
+        shape = _worker_shape(w, qname)
+        shapes[short] = shape
+        out += f"/-- {path}:{prod} — workers started, every item `put`, then `close(); join_thread(); done_event.set()`, then all workers joined, and nothing after -/\n"
+        out += f"def {short}_producer_order_ok : Bool := {'true' if order_ok and nput == 1 else 'false'}\n"
+        out += f"def {short}_capacity_per_worker : Nat := {m.group(1)}\n"
+        out += f"/-- {work}: where the shutdown flag is read relative to the queue poll -/\ndef {short}_flag_first : Bool := {'true' if shape == 'flag-first' else 'false'}\n\n"
+    allff = all(v == "flag-first" for v in shapes.values())
+    out += f"/-- all four hand-off workers read the flag *before* polling the queue and act on that reading when the poll comes back empty -/\ndef flag_first : Bool := {'true' if allff else 'false'}\n"
+    out += "\nend Stage\nend Gen\n"
+    return out
+
+
+MODULES["Stage"] = gen_stage
